@@ -22,7 +22,7 @@ use std::time::Duration;
 
 /// the same query on a record with the same tag names but one marker / non-marker flipped:
 /// an answer memoised per key set (or per anything coarser than the record) shows up as history dependence
-fn twin(q: &Query) -> Option<Query> {
+pub fn twin(q: &Query) -> Option<Query> {
     let flip = |r: &RDict| -> Option<RDict> {
         let mut t = r.clone();
         let k = t.iter().find(|(_, v)| matches!(v, RVal::Marker)).map(|(k, _)| k.clone());
@@ -611,7 +611,7 @@ pub fn probe_schedule(args: &[String]) -> i32 {
     let Ok(text) = std::fs::read_to_string(path) else { return 2 };
     let Ok(j) = serde_json::from_str::<J>(&text) else { return 2 };
     let Ok(c) = SchedCase::from_json(&j) else { return 2 };
-    for _ in 0..20 {
+    for _ in 0..100 {
         match run_schedule(&c, Duration::from_secs(20)) {
             Ok(Verdict::Pass) => {}
             Ok(Verdict::Fail { sig, msg }) => {
@@ -646,8 +646,8 @@ pub fn run(ctx: &mut Ctx) {
         let path = dir.join(format!("c14-stuck-{}.json", std::process::id()));
         let _ = std::fs::write(&path, case.to_string());
         let mut reproduced = false;
-        for _ in 0..3 {
-            let r = run_probe(&["c14-schedule".to_string(), path.display().to_string()], None, Duration::from_secs(90), &[]);
+        for _ in 0..8 {
+            let r = run_probe(&["c14-schedule".to_string(), path.display().to_string()], None, Duration::from_secs(150), &[]);
             if matches!(r.status, ProbeStatus::Exit(6) | ProbeStatus::Timeout) {
                 reproduced = true;
                 break;
